@@ -185,6 +185,9 @@ func TxSerialOf(tx []byte) int {
 
 // App is a deterministic application: state hash chains the transactions.
 type App struct {
+	// OnCommit, when set, is called at the end of every successful Commit callback with the
+	// block as received and the resulting state hash (used by cmd/crash for its durable delivery log).
+	OnCommit func(block hg.Block, state []byte)
 	W         *World
 	State     []byte
 	Delivered []hg.Block // as received by the callback (before state hash)
@@ -215,6 +218,9 @@ func (a *App) Commit(block hg.Block) (proxy.CommitResponse, error) {
 	}
 	a.Delivered = append(a.Delivered, block)
 	a.NewIdx = append(a.NewIdx, block.Index())
+	if a.OnCommit != nil {
+		a.OnCommit(block, a.State)
+	}
 	return proxy.CommitResponse{StateHash: a.State, InternalTransactionReceipts: receipts}, nil
 }
 
